@@ -44,7 +44,7 @@ func edits(f savedFile, rng *lib.Rand, thorough bool, first bool) (out []editT) 
 	// single-byte substitutions
 	per := 1
 	if thorough {
-		per = 6
+		per = 4
 	}
 	for i := 0; i < len(t); i++ {
 		if !thorough && !first && !rng.Chance(20) {
@@ -100,7 +100,7 @@ func corruptions(r *lib.Run, rng *lib.Rand, files []savedFile) {
 	}
 	var jobs []job
 	for i, f := range files {
-		if !r.Thorough() && i >= 4 {
+		if (!r.Thorough() && i >= 4) || i >= 6 {
 			break
 		}
 		for _, e := range edits(f, rng, r.Thorough(), i == 0) {
